@@ -213,4 +213,682 @@ theorem accepted_handlerBound {tr : List Ev} {m : Mon} (h : Mon.run {} tr = some
   have := runB_sound (run_components h).2.1 pre sid post hs
   simpa using this
 
+
+/-! ## liveness window shared by clauses C, D, E -/
+
+def liveFrom (l : Live) (pre : List Ev) : Live := pre.foldl Live.step l
+
+/-- At this point of the trace the server has sent no GOAWAY, has not closed the connection and
+the client is reading: the point at which "answered" / "acknowledged" obligations are due. -/
+def liveAt (pre : List Ev) : Prop := (liveFrom {} pre).due = true
+
+@[simp] theorem liveFrom_cons (l : Live) (e : Ev) (pre : List Ev) :
+    liveFrom l (e :: pre) = liveFrom (l.step e) pre := rfl
+
+/-! ## C. every non-ACK PING is answered exactly once with the same data -/
+
+def pingsOf (d : Nat) : List Ev → Nat
+  | [] => 0
+  | .cPing x :: r => pingsOf d r + (if x = d then 1 else 0)
+  | _ :: r => pingsOf d r
+
+def acksOf (d : Nat) : List Ev → Nat
+  | [] => 0
+  | .sPingAck x :: r => acksOf d r + (if x = d then 1 else 0)
+  | _ :: r => acksOf d r
+
+/-- Clause 3: a PING ACK always answers a not yet answered PING with the same data, and at
+every quiescent point of a live connection all PINGs have been answered (so: exactly once). -/
+def PingSpec (tr : List Ev) : Prop :=
+  (∀ pre post d, tr = pre ++ Ev.sPingAck d :: post → acksOf d pre < pingsOf d pre) ∧
+  (∀ pre post, tr = pre ++ Ev.quiesce :: post → liveAt pre → ∀ d, acksOf d pre = pingsOf d pre)
+
+theorem stepC_live {m m1 : MonC} {e : Ev} (h : stepC m e = some m1) : m1.live = m.live.step e := by
+  unfold stepC at h
+  cases e <;> simp at h <;> try (subst h; rfl)
+  all_goals
+    obtain ⟨_, h⟩ := h
+    subst h
+    rfl
+
+theorem count_erase_add (l : List Nat) (d0 d : Nat) (h : d0 ∈ l) :
+    List.count d (l.erase d0) + (if d0 = d then 1 else 0) = List.count d l := by
+  by_cases hd : d0 = d
+  · subst hd
+    have hpos : 0 < List.count d0 l := List.count_pos_iff.mpr h
+    simp [List.count_erase_self]
+    omega
+  · simp [hd, List.count_erase_of_ne (Ne.symm hd)]
+
+theorem runC_sound {m m' : MonC} {tr : List Ev} (h : runWith stepC m tr = some m') :
+    (∀ pre post d, tr = pre ++ Ev.sPingAck d :: post →
+      acksOf d pre < pingsOf d pre + List.count d m.outstanding) ∧
+    (∀ pre post, tr = pre ++ Ev.quiesce :: post → (liveFrom m.live pre).due = true →
+      ∀ d, acksOf d pre = pingsOf d pre + List.count d m.outstanding) := by
+  induction tr generalizing m with
+  | nil =>
+    constructor
+    · intro pre post d hs
+      cases pre <;> simp at hs
+    · intro pre post hs
+      cases pre <;> simp at hs
+  | cons ev rest ih =>
+    obtain ⟨m1, h1, h2⟩ := runWith_cons h
+    have hl := stepC_live h1
+    obtain ⟨ih1, ih2⟩ := ih h2
+    constructor
+    · intro pre post d hs
+      cases pre with
+      | nil =>
+        simp at hs
+        obtain ⟨rfl, rfl⟩ := hs
+        simp [stepC] at h1
+        simp [acksOf, pingsOf]
+        exact h1.1
+      | cons p pre' =>
+        simp at hs
+        obtain ⟨rfl, rfl⟩ := hs
+        have := ih1 pre' post d rfl
+        cases ev <;> simp [stepC] at h1 <;> try (subst h1; simpa [acksOf, pingsOf] using this)
+        case cPing x =>
+          subst h1
+          simp [acksOf, pingsOf, List.count_append, List.count_singleton] at this ⊢
+          by_cases hxd : x = d <;> simp [hxd] at this ⊢ <;> omega
+        case sPingAck x =>
+          obtain ⟨hx, rfl⟩ := h1
+          simp [acksOf, pingsOf] at this ⊢
+          have := count_erase_add m.outstanding x d hx
+          omega
+        case quiesce =>
+          obtain ⟨_, rfl⟩ := h1
+          simpa [acksOf, pingsOf] using this
+    · intro pre post hs hlive d
+      cases pre with
+      | nil =>
+        simp at hs
+        obtain ⟨rfl, rfl⟩ := hs
+        simp [stepC] at h1
+        simp [liveFrom] at hlive
+        simp [acksOf, pingsOf]
+        have hdue : (m.live.step Ev.quiesce).due = true := by simpa [Live.step] using hlive
+        have := h1.1 hdue
+        simp [this]
+      | cons p pre' =>
+        simp at hs
+        obtain ⟨rfl, rfl⟩ := hs
+        rw [liveFrom_cons, ← hl] at hlive
+        have := ih2 pre' post rfl hlive d
+        cases ev <;> simp [stepC] at h1 <;> try (subst h1; simpa [acksOf, pingsOf] using this)
+        case cPing x =>
+          subst h1
+          simp [acksOf, pingsOf, List.count_append, List.count_singleton] at this ⊢
+          by_cases hxd : x = d <;> simp [hxd] at this ⊢ <;> omega
+        case sPingAck x =>
+          obtain ⟨hx, rfl⟩ := h1
+          simp [acksOf, pingsOf] at this ⊢
+          have := count_erase_add m.outstanding x d hx
+          omega
+        case quiesce =>
+          obtain ⟨_, rfl⟩ := h1
+          simpa [acksOf, pingsOf] using this
+
+/-- **Monitor soundness, clause 3.** -/
+theorem accepted_pingSpec {tr : List Ev} {m : Mon} (h : Mon.run {} tr = some m) : PingSpec tr := by
+  have := runC_sound (run_components h).2.2.1
+  constructor
+  · intro pre post d hs
+    simpa using this.1 pre post d hs
+  · intro pre post hs hl d
+    simpa using this.2 pre post hs hl d
+
+
+/-! ## D. SETTINGS acknowledgement -/
+
+def nSet : List Ev → Nat
+  | [] => 0
+  | .cSettings 0 :: r => nSet r + 1
+  | _ :: r => nSet r
+
+def nAck : List Ev → Nat
+  | [] => 0
+  | .sSettingsAck :: r => nAck r + 1
+  | _ :: r => nAck r
+
+/-- Clause 4 as the statement has it: at every quiescent point of a live connection there are as
+many SETTINGS ACKs as valid SETTINGS frames. FALSE of the unchanged code (`settings_full_false`). -/
+def SettingsFull (tr : List Ev) : Prop :=
+  ∀ pre post, tr = pre ++ Ev.quiesce :: post → liveAt pre → nAck pre = nSet pre
+
+/-- What the code guarantees: an ACK always acknowledges an earlier, not yet counted SETTINGS
+frame, and at every quiescent point of a live connection every SETTINGS frame has been
+*followed* by a SETTINGS ACK. -/
+def SettingsWeak (tr : List Ev) : Prop :=
+  (∀ pre post, tr = pre ++ Ev.sSettingsAck :: post → nAck pre < nSet pre) ∧
+  (∀ pre post, tr = pre ++ Ev.quiesce :: post → liveAt pre →
+    ∀ p1 p2, pre = p1 ++ Ev.cSettings 0 :: p2 → Ev.sSettingsAck ∈ p2)
+
+theorem stepD_live {m m1 : MonD} {e : Ev} (h : stepD m e = some m1) : m1.live = m.live.step e := by
+  unfold stepD at h
+  cases e <;> simp at h <;> try (subst h; rfl)
+  case cSettings v =>
+    cases v <;> simp at h <;> subst h <;> rfl
+  all_goals
+    obtain ⟨_, h⟩ := h
+    subst h
+    rfl
+
+theorem runD_sound {m m' : MonD} {tr : List Ev} (h : runWith stepD m tr = some m') :
+    (∀ pre post, tr = pre ++ Ev.sSettingsAck :: post → m.nack + nAck pre < m.nset + nSet pre) ∧
+    (∀ pre post, tr = pre ++ Ev.quiesce :: post → (liveFrom m.live pre).due = true →
+      (m.dirty = true → Ev.sSettingsAck ∈ pre) ∧
+      ∀ p1 p2, pre = p1 ++ Ev.cSettings 0 :: p2 → Ev.sSettingsAck ∈ p2) := by
+  induction tr generalizing m with
+  | nil =>
+    constructor
+    · intro pre post hs
+      cases pre <;> simp at hs
+    · intro pre post hs
+      cases pre <;> simp at hs
+  | cons ev rest ih =>
+    obtain ⟨m1, h1, h2⟩ := runWith_cons h
+    have hl := stepD_live h1
+    obtain ⟨ih1, ih2⟩ := ih h2
+    constructor
+    · intro pre post hs
+      cases pre with
+      | nil =>
+        simp at hs
+        obtain ⟨rfl, rfl⟩ := hs
+        simp [stepD] at h1
+        simp [nAck, nSet]
+        omega
+      | cons p pre' =>
+        simp at hs
+        obtain ⟨rfl, rfl⟩ := hs
+        have := ih1 pre' post rfl
+        cases ev <;> simp [stepD] at h1 <;> try (subst h1; simpa [nAck, nSet] using this)
+        case cSettings v =>
+          cases v with
+          | zero => simp at h1; subst h1; simp [nAck, nSet] at this ⊢; omega
+          | succ k => simp at h1; subst h1; simpa [nAck, nSet] using this
+        case sSettingsAck =>
+          obtain ⟨_, rfl⟩ := h1
+          simp [nAck, nSet] at this ⊢
+          omega
+        case quiesce =>
+          obtain ⟨_, rfl⟩ := h1
+          simpa [nAck, nSet] using this
+    · intro pre post hs hlive
+      cases pre with
+      | nil =>
+        simp at hs
+        obtain ⟨rfl, rfl⟩ := hs
+        simp [stepD] at h1
+        simp [liveFrom] at hlive
+        have hdue : (m.live.step Ev.quiesce).due = true := by simpa [Live.step] using hlive
+        have := h1.1 hdue
+        simp [this]
+      | cons p pre' =>
+        simp at hs
+        obtain ⟨rfl, rfl⟩ := hs
+        rw [liveFrom_cons, ← hl] at hlive
+        obtain ⟨g1, g2⟩ := ih2 pre' post rfl hlive
+        have split2 : ∀ (hne : ev ≠ Ev.cSettings 0) p1 p2, ev :: pre' = p1 ++ Ev.cSettings 0 :: p2 →
+            Ev.sSettingsAck ∈ p2 := by
+          intro hne p1 p2 hp
+          cases p1 with
+          | nil => simp at hp; exact absurd hp.1 hne
+          | cons q p1' => simp at hp; exact g2 p1' p2 hp.2
+        cases ev <;> simp [stepD] at h1 <;>
+          try (subst h1; exact ⟨fun hd => List.mem_cons_of_mem _ (g1 hd), split2 (by simp)⟩)
+        case cSettings v =>
+          cases v with
+          | zero =>
+            simp at h1
+            subst h1
+            have hack := g1 rfl
+            refine ⟨fun _ => List.mem_cons_of_mem _ hack, ?_⟩
+            intro p1 p2 hp
+            cases p1 with
+            | nil => simp at hp; subst hp; exact hack
+            | cons q p1' => simp at hp; exact g2 p1' p2 hp.2
+          | succ k =>
+            simp at h1
+            subst h1
+            exact ⟨fun hd => List.mem_cons_of_mem _ (g1 hd), split2 (by simp)⟩
+        case sSettingsAck =>
+          obtain ⟨_, rfl⟩ := h1
+          exact ⟨fun _ => List.mem_cons_self, split2 (by simp)⟩
+        case quiesce =>
+          obtain ⟨_, rfl⟩ := h1
+          exact ⟨fun hd => List.mem_cons_of_mem _ (g1 hd), split2 (by simp)⟩
+
+/-- **Monitor soundness, clause 4 (what holds of the code as it is).** -/
+theorem settings_partial {tr : List Ev} {m : Mon} (h : Mon.run {} tr = some m) : SettingsWeak tr := by
+  have := runD_sound (run_components h).2.2.2.1
+  constructor
+  · intro pre post hs
+    simpa using this.1 pre post hs
+  · intro pre post hs hl
+    exact (this.2 pre post hs hl).2
+
+/-- two SETTINGS frames arrive while a write is blocked; one ACK follows (reproduced on the real
+server by the harness: oracle signature `settings-ack-coalesced`). -/
+def witnessCoalesced : List Ev :=
+  [.sSettings (some 1), .blk, .cSettings 0, .cSettings 0, .quiesce, .unblk, .sSettingsAck, .quiesce]
+
+theorem witnessCoalesced_accepted : (Mon.run {} witnessCoalesced).isSome = true := by decide
+
+/-- The literal clause "acknowledges every SETTINGS frame" (one ACK per frame) is false for a trace
+the monitor — and the real server — produce. -/
+theorem settings_full_false : ¬ (∀ tr m, Mon.run {} tr = some m → SettingsFull tr) := by
+  intro hall
+  cases hrun : Mon.run {} witnessCoalesced with
+  | none => have := witnessCoalesced_accepted; simp [hrun] at this
+  | some m =>
+    have := hall _ m hrun
+      [.sSettings (some 1), .blk, .cSettings 0, .cSettings 0, .quiesce, .unblk, .sSettingsAck] [] rfl
+      (by simp [liveAt, liveFrom, List.foldl, Live.step, Live.due])
+    simp [nAck, nSet] at this
+
+/-- excluded region of `settings_holds_partial`: some live quiescent point has fewer ACKs than SETTINGS -/
+def coalescedAt (tr : List Ev) : Prop :=
+  ∃ pre post, tr = pre ++ Ev.quiesce :: post ∧ liveAt pre ∧ nAck pre < nSet pre
+
+/-- Outside the excluded region the full clause holds: ACKs never outnumber SETTINGS frames, so
+"not fewer" at a live quiescent point is "equal". -/
+theorem settings_holds_partial {tr : List Ev} {m : Mon} (h : Mon.run {} tr = some m)
+    (hno : ¬ coalescedAt tr) : SettingsFull tr := by
+  intro pre post hs hl
+  have hle : nAck pre ≤ nSet pre := by
+    -- ACKs never outnumber SETTINGS: induction through the monitor's counter invariant
+    have key : ∀ (m0 m1 : MonD) (l : List Ev), runWith stepD m0 l = some m1 →
+        m0.nack ≤ m0.nset → m1.nack + 0 ≤ m1.nset ∧ True := by
+      intro m0 m1 l hr h0
+      induction l generalizing m0 with
+      | nil => simp [runWith] at hr; subst hr; exact ⟨by omega, trivial⟩
+      | cons e r ih =>
+        obtain ⟨mm, e1, e2⟩ := runWith_cons hr
+        apply ih mm e2
+        cases e <;> simp [stepD] at e1 <;> try (subst e1; simpa using h0)
+        case cSettings v =>
+          cases v <;> simp at e1 <;> subst e1 <;> simp <;> omega
+        case sSettingsAck =>
+          obtain ⟨hh, rfl⟩ := e1
+          simp
+          omega
+        case quiesce =>
+          obtain ⟨_, rfl⟩ := e1
+          simpa using h0
+    -- counters of the monitor equal the trace counts
+    have cnt : ∀ (m0 m1 : MonD) (l : List Ev), runWith stepD m0 l = some m1 →
+        m1.nack = m0.nack + nAck l ∧ m1.nset = m0.nset + nSet l := by
+      intro m0 m1 l hr
+      induction l generalizing m0 with
+      | nil => simp [runWith] at hr; subst hr; simp [nAck, nSet]
+      | cons e r ih =>
+        obtain ⟨mm, e1, e2⟩ := runWith_cons hr
+        have := ih mm e2
+        cases e <;> simp [stepD] at e1 <;> try (subst e1; simpa [nAck, nSet] using this)
+        case cSettings v =>
+          cases v with
+          | zero => simp at e1; subst e1; simp [nAck, nSet] at this ⊢; omega
+          | succ k => simp at e1; subst e1; simpa [nAck, nSet] using this
+        case sSettingsAck =>
+          obtain ⟨hh, rfl⟩ := e1
+          simp [nAck, nSet] at this ⊢
+          omega
+        case quiesce =>
+          obtain ⟨_, rfl⟩ := e1
+          simpa [nAck, nSet] using this
+    -- run the prefix
+    have hD := (run_components h).2.2.2.1
+    subst hs
+    have pref : ∀ (m0 m1 : MonD) (a b : List Ev), runWith stepD m0 (a ++ b) = some m1 →
+        ∃ mm, runWith stepD m0 a = some mm := by
+      intro m0 m1 a b hr
+      induction a generalizing m0 with
+      | nil => exact ⟨m0, rfl⟩
+      | cons e r ih =>
+        obtain ⟨mm, e1, e2⟩ := runWith_cons hr
+        obtain ⟨m2, hm2⟩ := ih mm e2
+        exact ⟨m2, by simp [runWith, e1, hm2]⟩
+    obtain ⟨mm, hmm⟩ := pref _ _ pre _ hD
+    have c := cnt _ _ _ hmm
+    have k := (key _ _ _ hmm (by simp)).1
+    simp at c
+    omega
+  by_cases heq : nAck pre = nSet pre
+  · exact heq
+  · exact absurd ⟨pre, post, hs, hl, by omega⟩ hno
+
+/-! ## E. malformed / connection-specific requests -/
+
+/-- class of the request on stream `sid`: the first HEADERS the client sent on it -/
+def firstReq (sid : Nat) : List Ev → Option ReqClass
+  | [] => none
+  | .cHeaders s _ cls _ :: r => if s = sid then some cls else firstReq sid r
+  | _ :: r => firstReq sid r
+
+/-- Clause 5a: the user handler is only ever started for a stream whose request was received and
+is neither malformed nor carries connection-specific fields. -/
+def OnlyGoodRequestsReachHandler (tr : List Ev) : Prop :=
+  ∀ pre post sid, tr = pre ++ Ev.hStart sid :: post → firstReq sid pre = some ReqClass.ok
+
+theorem stepE_keeps {m m1 : MonE} {e : Ev} (h : stepE m e = some m1)
+    (hne : ∀ s es c hp, e ≠ Ev.cHeaders s es c hp) : m1.seen = m.seen ∧ m1.noHandler = m.noHandler := by
+  unfold stepE at h
+  cases e <;> simp at h <;> try (subst h; exact ⟨rfl, rfl⟩)
+  case cHeaders s es c hp => exact absurd rfl (hne s es c hp)
+  case hStart s =>
+    obtain ⟨_, rfl⟩ := h
+    exact ⟨rfl, rfl⟩
+  case sRst s c =>
+    subst h
+    split <;> exact ⟨rfl, rfl⟩
+  case quiesce =>
+    obtain ⟨_, rfl⟩ := h
+    exact ⟨rfl, rfl⟩
+
+theorem runE_sound {m m' : MonE} {tr : List Ev} (h : runWith stepE m tr = some m') :
+    ∀ pre post sid, tr = pre ++ Ev.hStart sid :: post →
+      (sid ∈ m.seen ∧ sid ∉ m.noHandler) ∨ (sid ∉ m.seen ∧ firstReq sid pre = some ReqClass.ok) := by
+  induction tr generalizing m with
+  | nil =>
+    intro pre post sid hs
+    cases pre <;> simp at hs
+  | cons ev rest ih =>
+    obtain ⟨m1, h1, h2⟩ := runWith_cons h
+    intro pre post sid hs
+    cases pre with
+    | nil =>
+      simp at hs
+      obtain ⟨rfl, rfl⟩ := hs
+      simp [stepE] at h1
+      left
+      exact ⟨h1.1.1.2, h1.1.1.1⟩
+    | cons p pre' =>
+      simp at hs
+      obtain ⟨rfl, rfl⟩ := hs
+      have ih' := ih h2 pre' post sid rfl
+      by_cases hch : ∃ s es c hp, ev = Ev.cHeaders s es c hp
+      · obtain ⟨s, es, c, hp, rfl⟩ := hch
+        simp only [firstReq]
+        unfold stepE at h1
+        by_cases hs' : s ∈ m.seen
+        · simp [hs'] at h1
+          subst h1
+          rcases ih' with ⟨a, b⟩ | ⟨a, b⟩
+          · left; exact ⟨a, b⟩
+          · right
+            refine ⟨a, ?_⟩
+            have : s ≠ sid := fun e => a (e ▸ hs')
+            simp [this, b]
+        · simp [hs'] at h1
+          by_cases hsid : s = sid
+          · subst hsid
+            right
+            refine ⟨hs', ?_⟩
+            simp
+            cases c <;> simp at h1 <;> subst h1 <;> simp at ih' <;> first | rfl | exact absurd rfl ih'
+          · have hne : sid ≠ s := fun e => hsid e.symm
+            cases c <;> simp at h1 <;> subst h1 <;> simp [hne] at ih' <;>
+              rcases ih' with ⟨a, b⟩ | ⟨a, b⟩ <;>
+              first
+                | (left; exact ⟨a, b⟩)
+                | (left; exact ⟨a, b.2⟩)
+                | (right; exact ⟨a.2, by simp [hsid, b]⟩)
+                | (right; exact ⟨a, by simp [hsid, b]⟩)
+      · have hne : ∀ s es c hp, ev ≠ Ev.cHeaders s es c hp := fun s es c hp e => hch ⟨s, es, c, hp, e⟩
+        obtain ⟨k1, k2⟩ := stepE_keeps h1 hne
+        rw [k1, k2] at ih'
+        have : firstReq sid (ev :: pre') = firstReq sid pre' := by
+          cases ev <;> simp [firstReq]
+          case cHeaders s es c hp => exact absurd rfl (hne s es c hp)
+        rw [this]
+        exact ih'
+
+/-- **Monitor soundness, clause 5a.** -/
+theorem accepted_onlyGoodRequestsReachHandler {tr : List Ev} {m : Mon} (h : Mon.run {} tr = some m) :
+    OnlyGoodRequestsReachHandler tr := by
+  intro pre post sid hs
+  rcases runE_sound (run_components h).2.2.2.2 pre post sid hs with ⟨a, _⟩ | ⟨_, b⟩
+  · simp at a
+  · exact b
+
+
+/-- Clause 5b: a malformed request (first HEADERS on its stream) is answered with
+RST_STREAM(PROTOCOL_ERROR | REFUSED_STREAM) on that stream by every later quiescent point at
+which the connection is live. -/
+def MalformedGetStreamError (tr : List Ev) : Prop :=
+  ∀ p1 sid es cls hp p2 post,
+    tr = (p1 ++ Ev.cHeaders sid es cls hp :: p2) ++ Ev.quiesce :: post →
+    (cls = ReqClass.mw ∨ cls = ReqClass.mp) → firstReq sid p1 = none →
+    liveAt (p1 ++ Ev.cHeaders sid es cls hp :: p2) →
+    ∃ code, Ev.sRst sid code ∈ p2 ∧ (code = 1 ∨ code = 7)
+
+theorem liveFrom_quiet (l : Live) (pre : List Ev) (h : l.quiet = true) : (liveFrom l pre).quiet = true := by
+  induction pre generalizing l with
+  | nil => simpa [liveFrom] using h
+  | cons e r ih =>
+    rw [liveFrom_cons]
+    apply ih
+    cases e <;> simp [Live.step, h]
+
+theorem due_not_quiet (l : Live) (pre : List Ev) (h : (liveFrom l pre).due = true) : l.quiet = false := by
+  cases hq : l.quiet with
+  | false => rfl
+  | true =>
+    have := liveFrom_quiet l pre hq
+    simp [Live.due, this] at h
+
+theorem stepE_live {m m1 : MonE} {e : Ev} (h : stepE m e = some m1) : m1.live = m.live.step e := by
+  unfold stepE at h
+  cases e <;> simp at h <;> try (subst h; rfl)
+  case cHeaders s es c hp =>
+    split at h
+    · cases h; rfl
+    · cases c <;> simp at h <;> subst h <;> rfl
+  case hStart s =>
+    obtain ⟨_, rfl⟩ := h
+    rfl
+  case sRst s c =>
+    subst h
+    split <;> rfl
+  case quiesce =>
+    obtain ⟨_, rfl⟩ := h
+    rfl
+
+theorem firstReq_none_cons {sid : Nat} {e : Ev} {r : List Ev} (h : firstReq sid (e :: r) = none) :
+    firstReq sid r = none ∧ ∀ es c hp, e ≠ Ev.cHeaders sid es c hp := by
+  by_cases hch : ∃ s es c hp, e = Ev.cHeaders s es c hp
+  · obtain ⟨s, es, c, hp, rfl⟩ := hch
+    by_cases hs : s = sid
+    · simp [firstReq, hs] at h
+    · simp [firstReq, hs] at h
+      refine ⟨h, ?_⟩
+      intro es' c' hp' heq
+      injection heq with h1
+      exact hs h1
+  · refine ⟨?_, fun es c hp heq => hch ⟨sid, es, c, hp, heq⟩⟩
+    cases e <;> simp [firstReq] at h ⊢ <;> try exact h
+    case cHeaders s es c hp => exact absurd ⟨s, es, c, hp, rfl⟩ hch
+
+theorem runE_due {m m' : MonE} {tr : List Ev} (h : runWith stepE m tr = some m') :
+    ∀ pre post, tr = pre ++ Ev.quiesce :: post → (liveFrom m.live pre).due = true →
+      (∀ sid ∈ m.due, ∃ code, Ev.sRst sid code ∈ pre ∧ (code = 1 ∨ code = 7)) ∧
+      (∀ p1 sid es cls hp p2, pre = p1 ++ Ev.cHeaders sid es cls hp :: p2 →
+        (cls = ReqClass.mw ∨ cls = ReqClass.mp) → sid ∉ m.seen → firstReq sid p1 = none →
+        ∃ code, Ev.sRst sid code ∈ p2 ∧ (code = 1 ∨ code = 7)) := by
+  induction tr generalizing m with
+  | nil =>
+    intro pre post hs
+    cases pre <;> simp at hs
+  | cons ev rest ih =>
+    obtain ⟨m1, h1, h2⟩ := runWith_cons h
+    have hl := stepE_live h1
+    intro pre post hs hlive
+    cases pre with
+    | nil =>
+      simp at hs
+      obtain ⟨rfl, rfl⟩ := hs
+      simp [stepE] at h1
+      simp [liveFrom] at hlive
+      have hdue : (m.live.step Ev.quiesce).due = true := by simpa [Live.step] using hlive
+      have hemp := h1.1 hdue
+      constructor
+      · intro sid hsid
+        simp [hemp] at hsid
+      · intro p1 sid es cls hp p2 hp1
+        cases p1 <;> simp at hp1
+    | cons p pre' =>
+      simp at hs
+      obtain ⟨rfl, rfl⟩ := hs
+      rw [liveFrom_cons, ← hl] at hlive
+      have hnq : m1.live.quiet = false := due_not_quiet _ _ hlive
+      obtain ⟨a1, b1⟩ := ih h2 pre' post rfl hlive
+      -- lifting an RST found in pre' to ev :: pre'
+      have lift : ∀ sid, (∃ code, Ev.sRst sid code ∈ pre' ∧ (code = 1 ∨ code = 7)) →
+          ∃ code, Ev.sRst sid code ∈ ev :: pre' ∧ (code = 1 ∨ code = 7) := by
+        intro sid ⟨c, hc, hk⟩
+        exact ⟨c, List.mem_cons_of_mem _ hc, hk⟩
+      by_cases hch : ∃ s es c hp, ev = Ev.cHeaders s es c hp
+      · obtain ⟨s, es, c, hp, rfl⟩ := hch
+        unfold stepE at h1
+        by_cases hs' : s ∈ m.seen
+        · simp [hs'] at h1
+          subst h1
+          constructor
+          · intro sid hsid
+            exact lift sid (a1 sid hsid)
+          · intro p1 sid es' cls hp' p2 hp1 hcls hns hfr
+            cases p1 with
+            | nil =>
+              simp at hp1
+              obtain ⟨⟨rfl, _, _, _⟩, _⟩ := hp1
+              exact absurd hs' hns
+            | cons q p1' =>
+              simp at hp1
+              obtain ⟨rfl, rfl⟩ := hp1
+              obtain ⟨hfr', _⟩ := firstReq_none_cons hfr
+              exact b1 p1' sid es' cls hp' p2 rfl hcls hns hfr'
+        · simp [hs'] at h1
+          constructor
+          · intro sid hsid
+            apply lift
+            apply a1
+            cases c <;> simp at h1 <;> subst h1 <;> simp <;> try exact hsid
+            all_goals
+              split
+              · exact hsid
+              · exact List.mem_cons_of_mem _ hsid
+          · intro p1 sid es' cls hp' p2 hp1 hcls hns hfr
+            cases p1 with
+            | nil =>
+              simp at hp1
+              obtain ⟨⟨rfl, rfl, rfl, rfl⟩, rfl⟩ := hp1
+              apply a1
+              rcases hcls with rfl | rfl <;> simp at h1 <;> subst h1 <;> simp at hnq ⊢ <;> simp [hnq]
+            | cons q p1' =>
+              simp at hp1
+              obtain ⟨rfl, rfl⟩ := hp1
+              obtain ⟨hfr', hne⟩ := firstReq_none_cons hfr
+              have hsne : sid ≠ s := by
+                intro e
+                subst e
+                simp [firstReq] at hfr
+              apply b1 p1' sid es' cls hp' p2 rfl hcls _ hfr'
+              cases c <;> simp at h1 <;> subst h1 <;> simp [hsne, hns]
+      · have hne : ∀ s es c hp, ev ≠ Ev.cHeaders s es c hp := fun s es c hp e => hch ⟨s, es, c, hp, e⟩
+        obtain ⟨k1, _⟩ := stepE_keeps h1 hne
+        have second : ∀ p1 sid es cls hp p2, ev :: pre' = p1 ++ Ev.cHeaders sid es cls hp :: p2 →
+            (cls = ReqClass.mw ∨ cls = ReqClass.mp) → sid ∉ m.seen → firstReq sid p1 = none →
+            ∃ code, Ev.sRst sid code ∈ p2 ∧ (code = 1 ∨ code = 7) := by
+          intro p1 sid es cls hp p2 hp1 hcls hns hfr
+          cases p1 with
+          | nil =>
+            simp at hp1
+            exact absurd hp1.1 (hne sid es cls hp)
+          | cons q p1' =>
+            simp at hp1
+            obtain ⟨rfl, rfl⟩ := hp1
+            obtain ⟨hfr', _⟩ := firstReq_none_cons hfr
+            exact b1 p1' sid es cls hp p2 rfl hcls (k1 ▸ hns) hfr'
+        refine ⟨?_, second⟩
+        intro sid hsid
+        unfold stepE at h1
+        cases ev <;> simp at h1 <;> try (subst h1; exact lift sid (a1 sid hsid))
+        case cHeaders s es c hp => exact absurd rfl (hne s es c hp)
+        case hStart s =>
+          obtain ⟨_, rfl⟩ := h1
+          exact lift sid (a1 sid hsid)
+        case sRst s c =>
+          subst h1
+          by_cases hk : c = 1 ∨ c = 7
+          · by_cases hss : sid = s
+            · subst hss
+              exact ⟨c, List.mem_cons_self, hk⟩
+            · apply lift
+              apply a1
+              simp [hk, hsid, hss]
+          · apply lift
+            apply a1
+            simpa [hk] using hsid
+        case sGoaway c =>
+          subst h1
+          simp [Live.step] at hnq
+        case sClosed =>
+          subst h1
+          simp [Live.step] at hnq
+        case quiesce =>
+          obtain ⟨_, rfl⟩ := h1
+          exact lift sid (a1 sid hsid)
+
+/-- **Monitor soundness, clause 5b.** -/
+theorem accepted_malformedGetStreamError {tr : List Ev} {m : Mon} (h : Mon.run {} tr = some m) :
+    MalformedGetStreamError tr := by
+  intro p1 sid es cls hp p2 post hs hcls hfr hl
+  have := (runE_due (run_components h).2.2.2.2 _ post hs hl).2 p1 sid es cls hp p2 rfl hcls (by simp) hfr
+  exact this
+
+/-- The literal clause 5 also wants a stream error for requests with connection-specific
+fields. -/
+def RejectFull (tr : List Ev) : Prop :=
+  ∀ p1 sid es cls hp p2 post,
+    tr = (p1 ++ Ev.cHeaders sid es cls hp :: p2) ++ Ev.quiesce :: post →
+    cls ≠ ReqClass.ok → firstReq sid p1 = none →
+    liveAt (p1 ++ Ev.cHeaders sid es cls hp :: p2) →
+    ∃ code, Ev.sRst sid code ∈ p2
+
+/-- a request with `connection: close` and END_STREAM, answered 400 by the server itself
+(reproduced on the real server: oracle signature `connspecific-answered-400`). -/
+def witness400 : List Ev :=
+  [.sSettings (some 1), .cHeaders 1 true .cs true, .sHeaders 1 false, .sData 1 true, .quiesce]
+
+theorem witness400_accepted : (Mon.run {} witness400).isSome = true := by decide
+
+theorem reject_full_false : ¬ (∀ tr m, Mon.run {} tr = some m → RejectFull tr) := by
+  intro hall
+  cases hrun : Mon.run {} witness400 with
+  | none => have := witness400_accepted; simp [hrun] at this
+  | some m =>
+    obtain ⟨c, hc⟩ := hall _ m hrun [.sSettings (some 1)] 1 true .cs true [.sHeaders 1 false, .sData 1 true] [] rfl
+      (by decide) (by simp [firstReq]) (by simp [liveAt, liveFrom, List.foldl, Live.step, Live.due])
+    simp at hc
+
+/-- **Clause 5 as it holds (`reject_partial`)**: no handler start for any non-ok request, and a
+stream error for the malformed ones; connection-specific requests are excluded from the stream
+error claim (they are answered by the server's own 400 handler). -/
+theorem reject_partial {tr : List Ev} {m : Mon} (h : Mon.run {} tr = some m) :
+    OnlyGoodRequestsReachHandler tr ∧ MalformedGetStreamError tr :=
+  ⟨accepted_onlyGoodRequestsReachHandler h, accepted_malformedGetStreamError h⟩
+
+/-- **Monitor soundness**: every trace the monitor accepts satisfies the statement (clauses 1–3
+in full, 4 and 5 in the form the code implements). -/
+theorem monitor_sound {tr : List Ev} {m : Mon} (h : Mon.run {} tr = some m) :
+    NoSendAfterClose tr ∧ HandlerBound tr ∧ PingSpec tr ∧ SettingsWeak tr ∧
+    OnlyGoodRequestsReachHandler tr ∧ MalformedGetStreamError tr :=
+  ⟨accepted_noSendAfterClose h, accepted_handlerBound h, accepted_pingSpec h, settings_partial h,
+   accepted_onlyGoodRequestsReachHandler h, accepted_malformedGetStreamError h⟩
+
 end NetVerif.Proofs.C15
